@@ -200,7 +200,23 @@ func c11(g *Gen) {
 					}
 				}
 			}
-			g.Emit("C11.errors!", list(atom(strings.Join(eprob, "; "))), boolS(len(eprob) == 0), "bad-requests")
+			// a package that does not parse, first seen as a dependency, requested later: some load must fail
+			os.MkdirAll(filepath.Join(dir, "brokendep"), 0755)
+			os.WriteFile(filepath.Join(dir, "brokendep", "file.go"), []byte("package brokendep\n\ntype T struct{ A int }\n\ntype U struct {\n\tB int\n\ntype W struct{ C int }\n"), 0644)
+			os.MkdirAll(filepath.Join(dir, "usesbroken"), 0755)
+			os.WriteFile(filepath.Join(dir, "usesbroken", "file.go"), []byte("package usesbroken\n\nimport \"ex.test/brokendep\"\n\ntype H struct{ X brokendep.T }\n"), 0644)
+			{
+				p := parser.New()
+				err := p.LoadPackagesWithConfigForTesting(&packages.Config{Dir: dir, Env: append(os.Environ(), "GOFLAGS=-mod=mod", "GOWORK=off")}, "ex.test/usesbroken")
+				if err == nil {
+					if u, err2 := p.NewUniverse(); err2 == nil {
+						if _, err3 := p.LoadPackagesTo(&u, "ex.test/brokendep"); err3 == nil {
+							eprob = append(eprob, "ex.test/brokendep does not parse; loaded as a dependency and requested afterwards, no load reported an error")
+						}
+					}
+				}
+			}
+			g.Emit("C11.errors!", list(atom(strings.Join(eprob, "; "))), boolS(len(eprob) == 0), "bad-requests", "broken-dependency-requested-later")
 		}
 		os.Chdir(cwd)
 		os.RemoveAll(dir)
